@@ -43,10 +43,12 @@ Profile GetProfile(const std::string& name, bool thorough) {
     p.subset_then_touch = true;
     p.generator_restats_log = true;
     if (name == "C04") p.prune_empty_dirs = true;
-  } else if (name == "C05") {
+  } else if (name == "C05" || name == "C05R") {
     p.pm_cmd_fail = 220; p.pm_cmd_signal = 60; p.w_edit = 4; p.pm_io_error = 0;
     p.w_missing_source = 2; p.gen.features |= F_VALIDATION;
     p.gen.features &= ~F_REGEN;
+    // C05R: manifests with a generator statement, regenerated often, and the generator may fail
+    if (name == "C05R") { p.gen.features |= F_REGEN; p.w_regen = 3; p.regen_may_fail = true; p.pm_cmd_fail = 120; }
   } else if (name == "C06") {
     p.pm_cmd_fail = 80; p.pm_interrupt = 80; p.pm_jobserver = 500; p.pm_io_error = 120; p.pm_load = 100; p.w_block_dir = 1;
     p.cmd_interrupt_status = true;
@@ -79,6 +81,7 @@ Profile GetProfile(const std::string& name, bool thorough) {
     p.pm_cmd_fail = 0; p.pm_interrupt = 0; p.pm_crash = 0; p.pm_editor = 0; p.buggify = false;
   } else if (name == "C17") {
     p.gen.cycles = true; p.cycles = true; p.pm_cmd_fail = 0; p.pm_editor = 0; p.w_dry = 2;
+    p.w_clean = 2; p.w_tool_ro = 2;   // tools walk the same (possibly cyclic) graph: they must end, with or without a diagnosis
     p.gen.features |= F_DYNDEP | F_VALIDATION | F_DEPSGCC | F_MULTIOUT | F_HIDDEN_NOPATH;
     p.gen.features &= ~F_REGEN;
   } else if (name == "C18") {
@@ -187,6 +190,11 @@ struct Driver {
     }
     // command failures
     for (const Stmt& s : w.sc.stmts) {
+      if (s.alive && s.regen && prof.regen_may_fail && H(6) == 0) {
+        // the generator of build.ninja fails (and, like a real one, leaves the manifest alone)
+        int code = 2 + (int)H(120);
+        p.fail[s.id] = std::make_pair(code << 8, 0);
+      }
       if (!s.alive || s.phony || s.regen) continue;
       int c = 999 - (int)H(1000);
       if (c < prof.pm_cmd_fail) {
